@@ -639,6 +639,11 @@ func serveWebsocketScript(c net.Conn, s script, clear *bytes.Buffer, mu *sync.Mu
 func TestPlaintextAgainstTLSEndpoint(t *testing.T) {
 	rapid.Check(t, func(rt *rapid.T) {
 		carrier := []string{vlib.CarTCPTLS, vlib.CarHTTPS, vlib.CarStdioTLS}[rapid.IntRange(0, 2).Draw(rt, "carrier")]
+		// the HTTPS endpoint under each of its documented spellings
+		serverScheme := ""
+		if carrier == vlib.CarHTTPS {
+			serverScheme = []string{"", "wss", "http+tls", "ws+tls"}[rapid.IntRange(0, 3).Draw(rt, "serverScheme")]
+		}
 		var prefix []byte
 		kind := rapid.IntRange(0, 4).Draw(rt, "prefixKind")
 		announce := "X-SOCKETACE / HTTP/1.1\r\nAccepts-Protocol-Version: " + version.ProtocolVersion + "\r\nUser-Agent: plain/1.0\r\n\r\n"
@@ -659,7 +664,7 @@ func TestPlaintextAgainstTLSEndpoint(t *testing.T) {
 		tgt := vlib.NewTarget("data", vlib.EchoHandler)
 		defer tgt.Close()
 		kp := vlib.ServerCertFor("match", "localhost")
-		cfg := vlib.PairConfig{Carrier: carrier, ServerCert: &kp, ClientInsecure: true,
+		cfg := vlib.PairConfig{Carrier: carrier, ServerCert: &kp, ClientInsecure: true, ServerScheme: serverScheme,
 			Channels:  []vlib.ChannelSpec{{Name: "data", Target: tgt.URL()}},
 			Listeners: []vlib.ListenerSpec{{Channel: "data"}}}
 		// a TLS endpoint whose certificate is missing from the configuration may refuse to start or refuse every
@@ -697,8 +702,8 @@ func TestPlaintextAgainstTLSEndpoint(t *testing.T) {
 			reply, _ = io.ReadAll(c)
 			c.Close()
 		}
-		desc := map[string]interface{}{"carrier": carrier, "prefix_kind": kind, "prefix": vlib.Hex(prefix), "no_certificate": noCert}
-		vlib.Rec.Case(fmt.Sprintf("exp3 %s %x %v", carrier, prefix, noCert), true, []string{"exp3", "carrier:" + carrier, fmt.Sprintf("prefix:%d", kind), fmt.Sprintf("no-certificate:%v", noCert)}, func() interface{} { return desc })
+		desc := map[string]interface{}{"carrier": carrier, "server_scheme": serverScheme, "prefix_kind": kind, "prefix": vlib.Hex(prefix), "no_certificate": noCert}
+		vlib.Rec.Case(fmt.Sprintf("exp3 %s %s %x %v", carrier, serverScheme, prefix, noCert), true, []string{"exp3", "carrier:" + carrier, "server-scheme:" + serverScheme, fmt.Sprintf("prefix:%d", kind), fmt.Sprintf("no-certificate:%v", noCert)}, func() interface{} { return desc })
 		fail := func(msg string) {
 			vlib.Rec.Violation(map[string]interface{}{"property": "C04", "experiment": 3, "case": desc, "problem": msg, "reply": vlib.Hex(reply)})
 			rt.Fatalf("C04 exp3 %v: %s (reply %q)", desc, msg, string(reply))
@@ -861,4 +866,53 @@ func (p *prefixConn) Read(b []byte) (int, error) {
 		return n, nil
 	}
 	return p.Conn.Read(b)
+}
+
+// TestTLSEndpointSpellings enumerates every documented spelling of a TLS endpoint address against the two complete
+// plaintext openings (the socketace handshake, and a websocket upgrade followed by it): no spelling may be served in
+// clear.
+func TestTLSEndpointSpellings(t *testing.T) {
+	announce := "X-SOCKETACE / HTTP/1.1\r\nAccepts-Protocol-Version: " + version.ProtocolVersion + "\r\nUser-Agent: plain/1.0\r\n\r\n"
+	upgrade := "GET / HTTP/1.1\r\nUser-Agent: plain/1.0\r\nUpgrade: socketace/" + version.ProtocolVersion + "\r\nConnection: upgrade\r\n\r\n"
+	wsUpgrade := "GET /ws/all HTTP/1.1\r\nHost: localhost\r\nUpgrade: websocket\r\nConnection: Upgrade\r\nSec-WebSocket-Key: dGhlIHNhbXBsZSBub25jZQ==\r\nSec-WebSocket-Version: 13\r\n\r\n"
+	type spelling struct{ carrier, scheme string }
+	for _, sp := range []spelling{{vlib.CarTCPTLS, ""}, {vlib.CarHTTPS, ""}, {vlib.CarHTTPS, "wss"}, {vlib.CarHTTPS, "http+tls"}, {vlib.CarHTTPS, "ws+tls"}} {
+		for k, prefix := range []string{announce + upgrade, wsUpgrade, wsUpgrade + announce + upgrade} {
+			tgt := vlib.NewTarget("data", vlib.EchoHandler)
+			kp := vlib.ServerCertFor("match", "localhost")
+			p, err := vlib.StartPair(vlib.PairConfig{Carrier: sp.carrier, ServerCert: &kp, ClientInsecure: true, ServerScheme: sp.scheme,
+				Channels:  []vlib.ChannelSpec{{Name: "data", Target: tgt.URL()}},
+				Listeners: []vlib.ListenerSpec{{Channel: "data"}}})
+			if err != nil {
+				tgt.Close()
+				if vlib.IsBindError(err) {
+					vlib.Rec.Inconclusive("bind")
+					continue
+				}
+				t.Fatalf("pair start (%+v): %v", sp, err)
+			}
+			var reply []byte
+			if c, err := net.Dial("tcp", vlib.HostPort(p.SrvPort)); err == nil {
+				c.SetDeadline(time.Now().Add(500 * time.Millisecond))
+				c.Write([]byte(prefix))
+				reply, _ = io.ReadAll(c)
+				c.Close()
+			}
+			accepts := tgt.Accepts()
+			p.Close()
+			tgt.Close()
+			desc := map[string]interface{}{"carrier": sp.carrier, "server_scheme": sp.scheme, "plaintext_opening": []string{"socketace handshake", "websocket upgrade", "websocket upgrade + socketace handshake"}[k]}
+			vlib.Rec.Case(fmt.Sprintf("exp3-enum %+v %d", sp, k), true, []string{"exp3", "enumerated", "carrier:" + sp.carrier, "server-scheme:" + sp.scheme}, func() interface{} { return desc })
+			msg := ""
+			if bytes.Contains(reply, []byte(" 200 OK")) || bytes.Contains(reply, []byte(" 101 ")) {
+				msg = "a TLS-configured endpoint answered a plaintext opening with a success status in clear"
+			} else if accepts != 0 {
+				msg = "a plaintext client caused a target connection through a TLS-configured endpoint"
+			}
+			if msg != "" {
+				vlib.Rec.Violation(map[string]interface{}{"property": "C04", "experiment": 3, "case": desc, "problem": msg, "reply": vlib.Hex(reply)})
+				t.Errorf("C04 exp3 %v: %s (reply %q)", desc, msg, string(reply))
+			}
+		}
+	}
 }
